@@ -215,17 +215,12 @@ def arcOfX (L : LineX α) (K : Ell α) (arcmode : Bool) (s12_a12 ssig12k csig12k
   let sig12 := tau12 - (E2 - L.E1)
   (sig12, RealLike.sin sig12, RealLike.cos sig12, E2)
 
-def genPositionX (L : LineX α) (K : Ell α) (arcmode : Bool) (s12_a12 ssig12k csig12k : α) (unroll : Bool) : PosX α :=
-  let h := arcOfX L K arcmode s12_a12 ssig12k csig12k
-  let sig12 := h.1
-  let ssig12 := h.2.1
-  let csig12 := h.2.2.1
-  let E2 := h.2.2.2
+/-- everything `GenPosition` does once the arc `sig12 = σ2 − σ1` (with its sine and cosine), the periodic part `E2` of the scaled
+    distance at the end point, and the returned pair `(s12, a12)` are known -/
+def tailX (L : LineX α) (K : Ell α) (unroll : Bool) (sig12 ssig12 csig12 E2 s12 a12 : α) : PosX α :=
   let ssig2 := L.ssig1 * csig12 + L.csig1 * ssig12
   let csig2 := L.csig1 * csig12 - L.ssig1 * ssig12
   let dn2 := delta L.k2 L.kp2 ssig2 csig2
-  let E2 := if arcmode then K.deltaE ssig2 csig2 dn2 else E2
-  let AB1 := L.E0 * (E2 - L.E1)
   let sbet2 := L.calp0 * ssig2
   let cbet2 := RealLike.hypot L.salp0 (L.calp0 * csig2)
   let degen := eqb cbet2 0
@@ -233,7 +228,6 @@ def genPositionX (L : LineX α) (K : Ell α) (arcmode : Bool) (s12_a12 ssig12k c
   let csig2 := if degen then L.tiny else csig2
   let salp2 := L.salp0
   let calp2 := L.calp0 * csig2
-  let s12 := if arcmode then L.b * (L.E0 * sig12 + AB1) else s12_a12
   -- longitude
   let somg2 := L.salp0 * ssig2
   let comg2 := csig2
@@ -265,8 +259,23 @@ def genPositionX (L : LineX α) (K : Ell α) (arcmode : Bool) (s12_a12 ssig12k c
     if merid then calp2 * L.calp1 + salp2 * L.salp1
     else sq L.salp0 + sq L.calp0 * L.csig1 * csig2
   let S12 := L.c2 * RealLike.atan2 salp12 calp12 + L.A4 * (B42 - L.B41)
-  let a12 := if arcmode then s12_a12 else sig12 / degree
   ⟨a12, lat2, lon12, L.lon1 + lon12, azi2, s12, m12, M12, M21, S12, sig12, ssig12, csig12, ssig2, csig2, dn2, sbet2, cbet2, salp2, calp2,
     E2, J12, chi12⟩
+
+/-- `GeodesicLineExact::GenPosition` with all outputs requested: the head (`arcOfX`), then in arc mode `E2 = deltaE(σ2)` and
+    `s12 = b (E0 σ12 + E0 (E2 − E1))`, in distance mode `a12 = σ12 / degree`; then `tailX` -/
+def genPositionX (L : LineX α) (K : Ell α) (arcmode : Bool) (s12_a12 ssig12k csig12k : α) (unroll : Bool) : PosX α :=
+  let h := arcOfX L K arcmode s12_a12 ssig12k csig12k
+  let sig12 := h.1
+  let ssig12 := h.2.1
+  let csig12 := h.2.2.1
+  let ssig2 := L.ssig1 * csig12 + L.csig1 * ssig12
+  let csig2 := L.csig1 * csig12 - L.ssig1 * ssig12
+  let dn2 := delta L.k2 L.kp2 ssig2 csig2
+  let E2 := if arcmode then K.deltaE ssig2 csig2 dn2 else h.2.2.2
+  let AB1 := L.E0 * (E2 - L.E1)
+  let s12 := if arcmode then L.b * (L.E0 * sig12 + AB1) else s12_a12
+  let a12 := if arcmode then s12_a12 else sig12 / degree
+  tailX L K unroll sig12 ssig12 csig12 E2 s12 a12
 
 end GeoVerif.GeodLineX
